@@ -1,5 +1,5 @@
 /* C20/C07 harness: backup-group arithmetic of the scratch libext2fs on a synthetic geometry.
- * stdin: S <sparse> <sparse2> <bg0> <bg1> <metabg> <first_meta_bg> <desc_per_block_log: desc size> <desc_blocks> <rsv_gdt> <first_data_block> <bpg> <blocksize> <ngroups>
+ * stdin: S <sparse> <sparse2> <bg0> <bg1> <metabg> <first_meta_bg> <desc_per_block_log: desc size> <desc_blocks> <rsv_gdt> <first_data_block> <bpg> <blocksize> <ngroups> [<bigalloc 0|1>]
  *        prints for every group g < ngroups:  g has_super super_blk old_desc new_desc used
  *        then for every descriptor block i: D i <location with the primary superblock> <location with a backup superblock>
  *        L <n>   prints n results of ext2fs_list_backups(NULL, 1,5,7) */
@@ -18,9 +18,9 @@ int main(void)
 		if (!strcmp(cmd, "S")) {
 			struct struct_ext2_filsys fsb;
 			struct ext2_super_block sb;
-			unsigned long long sp, sp2, bg0, bg1, mb, fmb, dsize, dblocks, rsv, fdb, bpg, bs, ng, g;
-			sscanf(line, "%*s %llu %llu %llu %llu %llu %llu %llu %llu %llu %llu %llu %llu %llu",
-			       &sp, &sp2, &bg0, &bg1, &mb, &fmb, &dsize, &dblocks, &rsv, &fdb, &bpg, &bs, &ng);
+			unsigned long long sp, sp2, bg0, bg1, mb, fmb, dsize, dblocks, rsv, fdb, bpg, bs, ng, g, big = 0;
+			sscanf(line, "%*s %llu %llu %llu %llu %llu %llu %llu %llu %llu %llu %llu %llu %llu %llu",
+			       &sp, &sp2, &bg0, &bg1, &mb, &fmb, &dsize, &dblocks, &rsv, &fdb, &bpg, &bs, &ng, &big);
 			memset(&fsb, 0, sizeof fsb); memset(&sb, 0, sizeof sb);
 			fsb.magic = EXT2_ET_MAGIC_EXT2FS_FILSYS;
 			fsb.super = &sb;
@@ -28,6 +28,11 @@ int main(void)
 			fsb.desc_blocks = dblocks;
 			fsb.group_desc_count = ng;
 			sb.s_log_block_size = bs == 1024 ? 0 : bs == 2048 ? 1 : bs == 4096 ? 2 : bs == 8192 ? 3 : bs == 16384 ? 4 : bs == 32768 ? 5 : 6;
+			if (big) {	/* bigalloc, 4 blocks per cluster */
+				sb.s_feature_ro_compat |= EXT4_FEATURE_RO_COMPAT_BIGALLOC;
+				sb.s_log_cluster_size = sb.s_log_block_size + 2;
+				fsb.cluster_ratio_bits = 2;
+			}
 			sb.s_first_data_block = fdb;
 			sb.s_blocks_per_group = bpg;
 			sb.s_reserved_gdt_blocks = rsv;
